@@ -102,6 +102,13 @@ fn families() -> Vec<Family> {
             len_thorough: 8,
         },
         Family {
+            name: "n-very-large-table(binary rt, unary tri and constant KK behind 257 other operators)",
+            table: Table::new((0..257).map(|i| OpDesc::bin(intern(&format!("w{i:03}")), 1, false)).chain([OpDesc::bin("rt", 2, false), OpDesc::un("tri"), OpDesc::cst("KK", 44), OpDesc::bin_un("-", 0, false)]).collect()),
+            chars: vec!["t", "r", "i", "K", "x", "1", " ", "(", "-"],
+            len_quick: 6,
+            len_thorough: 7,
+        },
+        Family {
             name: "h-greek(σ unary, π constant)",
             table: Table::new(vec![OpDesc::un("σ"), OpDesc::cst("π", 31), OpDesc::bin_un("+", 0, true), OpDesc::un("σσ")]),
             chars: vec!["π", "σ", "α", "Ω", "a", "2", " ", "+", "_"],
